@@ -236,7 +236,12 @@ func genPts(r *rand.Rand, n int, big bool) [][2]int64 {
 
 // rings are OPEN in this geometry library (the WKB encoder closes them, the decoder opens them again)
 func genRing(r *rand.Rand, big bool) [][2]int64 {
-	return genPts(r, 3+r.Intn(3), big)
+	for {
+		p := genPts(r, 3+r.Intn(3), big)
+		if p[0] != p[len(p)-1] { // a ring that happens to be closed would come back without its last point
+			return p
+		}
+	}
 }
 
 func genGeom(r *rand.Rand, kind int, empty bool) geomSpec {
@@ -818,6 +823,7 @@ func runC12(c *hc.Ctx) error {
 			}
 		}
 	}
+	seenF10 := map[string]bool{}
 	results, err := runC12Cases(dir, cases, 16)
 	if err != nil {
 		return err
@@ -851,7 +857,14 @@ func runC12(c *hc.Ctx) error {
 		for _, p := range c12Oracle(k, r.Obs) {
 			v := hc.Violation{What: p.What, Input: k, Observed: p.Observed, Expected: p.Expected}
 			if p.F10 {
+				// the known finding is reported once per distinct message (hc keeps at most 50 violations per run:
+				// repeating it would crowd out a new one); every occurrence is counted in the distribution
 				v.KnownFinding = "F10"
+				c.Count("known finding F10 observed")
+				if seenF10[p.What] {
+					continue
+				}
+				seenF10[p.What] = true
 			}
 			c.Violate(v)
 		}
